@@ -1,6 +1,6 @@
 /-
   Oracle commands for C16 (memory estimator):
-    c16 <numGPU> <overhead> <nproj> {pw pg}* <vw> <vg> <blk0|-> <nblocks> {w|- kv}*
+    c16 <variant 0=pinned|1=fix C16-W1> <numGPU> <overhead> <nproj> {pw pg}* <vw> <vg> <blk0|-> <nblocks> {w|- kv}*
         <gp> <gf> <gqa> <onorm|-> <out|-> <temb|-> <ngroups> {lib <ngpus> {free min}*}*
       -> fit=<0|1>,<vram> | <estimate of group 1> | <estimate of group 2> ...
     where <estimate> = L=.. G=.. V=.. T=.. S=<a,b,..|-> Z=<a,b,..|-> kv=.. mw=.. mo=.. gf=.. gp=.. pw=.. pg=..
@@ -57,6 +57,7 @@ def handle (toks : List String) : Option String :=
   match toks with
   | "c16" :: rest =>
     runTP (do
+      let variant ← nat
       let numGPU ← int
       let overhead ← nat
       let projs ← listOf pPair
@@ -74,7 +75,8 @@ def handle (toks : List String) : Option String :=
       let common : Inp :=
         { lib := .other, gpus := [], overhead := overhead, projs := projs, vision := (vw, vg),
           blk0 := blk0, blocks := blocks, graphPartial := gp, graphFull := gf, gqa := gqa,
-          outNorm := onorm, output := out, tokenEmbd := temb, numGPU := numGPU }
+          outNorm := onorm, output := out, tokenEmbd := temb, numGPU := numGPU,
+          ovSafe := variant != 0 }
       let fit := predictFit common groups
       let ests := groups.map fun (l, gs) => showEst (estimate { common with lib := l, gpus := gs })
       let f := if fit.1 then "1" else "0"
